@@ -20,11 +20,11 @@ echo "== demo with change"
 bash $out/build_and_run.sh $wt; rc_with=$?
 echo "demo exit with change: $rc_with"
 echo "== revert, rebuild, demo without"
-git stash -q
+git diff > $out/.current.diff; git apply -R $out/.current.diff
 cmake --build _build -j6 -- -k 0 >/dev/null 2>&1
 bash $out/build_and_run.sh $wt; rc_without=$?
 echo "demo exit without change: $rc_without"
-git stash pop -q
+git apply $out/.current.diff
 echo "RESULT id=$id tests_ok=$passed demo_with=$rc_with demo_without=$rc_without"
 if [ "$passed" = 1 ] && [ $rc_with != 0 ] && [ $rc_without = 0 ]; then
   mkdir -p $dst
